@@ -395,6 +395,32 @@ func (p *cparser) parseType() *ctype {
 		return &ctype{kind: "array", n: n.text, elem: p.parseType()}
 	}
 	name := p.ident()
+	if name == "func" {
+		// function type: the parameter and result lists are skipped (only its sort matters)
+		skip := func() {
+			p.expect("(")
+			depth := 1
+			for depth > 0 {
+				t := p.next()
+				if t.kind == tkEOF {
+					p.fail("unterminated func type")
+				}
+				if t.kind == tkOp && t.text == "(" {
+					depth++
+				}
+				if t.kind == tkOp && t.text == ")" {
+					depth--
+				}
+			}
+		}
+		skip()
+		if p.isOp("(") {
+			skip()
+		} else if t := p.peek(); t.kind == tkIdent || (t.kind == tkOp && (t.text == "*" || t.text == "[")) {
+			p.parseType()
+		}
+		return &ctype{kind: "func"}
+	}
 	if name == "map" {
 		p.expect("[")
 		k := p.parseType()
